@@ -37,9 +37,10 @@ Track(types, i) ==
   IF i.rid = <<>> THEN types
   ELSE LET rid == i.rid[1] IN
     IF i.op = OpTypeInt /\ Len(i.ops) >= 1 /\ i.ops[1].k = "LiteralBit32"
-      THEN (rid :> [c |-> "Int", w |-> i.ops[1].w[1]]) @@ types
+      THEN (rid :> [c |-> "Int", w |-> i.ops[1].w[1],
+                    sg |-> IF Len(i.ops) >= 2 /\ i.ops[2].k = "LiteralBit32" THEN i.ops[2].w[1] = <<0, 1>> ELSE FALSE]) @@ types
     ELSE IF i.op = OpTypeFloat /\ Len(i.ops) >= 1 /\ i.ops[1].k = "LiteralBit32"
-      THEN (rid :> [c |-> "Float", w |-> i.ops[1].w[1]]) @@ types
+      THEN (rid :> [c |-> "Float", w |-> i.ops[1].w[1], sg |-> FALSE]) @@ types
     ELSE IF i.rt # <<>> /\ Known(types, i.rt[1])
       \* "as propagated from the defining instruction's result type"
       THEN (rid :> types[i.rt[1]]) @@ types
